@@ -315,6 +315,9 @@ func c08Values() []dec.D {
 		}{{5, -1}, {1, 0}, {100, -2}, {7, 0}, {8, 0}, {25, -1}, {1, 1}, {3, 2}, {70, -1}, {12345, -2}} {
 			vs = append(vs, dec.D{Form: dec.Finite, Neg: neg, C: big.NewInt(f.c), E: f.e})
 		}
+		// one, written with more digits than the power-of-ten table has entries
+		// (the 150-digit quotient 7/7): where x is compared with 1, its length must not matter
+		vs = append(vs, dec.D{Form: dec.Finite, Neg: neg, C: new(big.Int).Set(dec.Pow10(150)), E: -150})
 	}
 	return vs
 }
@@ -410,7 +413,7 @@ func c08Case(t *mon.T, op string, c dec.Ctx, traps apd.Condition, x, y dec.D, pa
 }
 
 func runC08(r *mon.Run) {
-	r.Rule = "exhaustive grid: operand classes {NaN, sNaN, -NaN, -sNaN, +/-Inf (canonical, and with the coefficient and exponent an overflow leaves behind), +/-0 with exponents -3/0/4, finite +/-{0.5, 1, 1.00, 7, 8, 2.5, " +
+	r.Rule = "exhaustive grid: operand classes {NaN, sNaN, -NaN, -sNaN, +/-Inf (canonical, and with the coefficient and exponent an overflow leaves behind), +/-0 with exponents -3/0/4, finite +/-{0.5, 1, 1.00, 1.000..0 (151 digits), 7, 8, 2.5, " +
 		"1E+1, 3E+2, 7.0, 123.45}} for both operands x 22 Context operations x 8 rounding modes x 3 contexts x traps {none, default} x aliasing patterns {distinct, d==x, d==y, x==y, d==x==y}; each " +
 		"cell with at least one special or zero operand (or a cell the table defines) is compared with a table written from the GDA " +
 		"specification (form, sign, InvalidOperation/DivisionByZero/DivisionUndefined and the absence of rounding flags); cells the " +
